@@ -80,7 +80,8 @@ class Check:
         want = floors.get(k, {}).get('min')
         self.extra.setdefault('floors', {})[k] = dict(counted=counted, floor=want)
         if os.environ.get('VERIF_RECORD_FLOORS') == '1':
-            floors[k] = dict(min=counted, how='counted by the rule on the reference tree (%s) and confirmed by reading the instances' % time.strftime('%Y-%m-%d'))
+            floors[k] = dict(min=(counted * 4) // 5 if counted >= 10 else max(counted - 1, 1 if counted else 0), counted=counted,
+                             how='instances matched on the reference tree (%s); the floor is 80%% of that count: it guards against a rule that lost its anchors, not against ordinary code evolution' % time.strftime('%Y-%m-%d'))
             json.dump(floors, open(FLOORS, 'w'), indent=1, sort_keys=True)
             return
         if want is None:
